@@ -7,6 +7,7 @@ import SodiumModel.Spec.Scalar25519
 import SodiumModel.Spec.Ristretto255
 import SodiumModel.Spec.H2c
 import SodiumModel.Model.Scalar
+import SodiumModel.Model.Scalarmult
 import SodiumModel.Driver.C06
 namespace Sodium.Driver.C05
 open Sodium Sodium.Model Sodium.Driver Sodium.Spec
@@ -18,11 +19,36 @@ def rcHex : Option Bytes → String
   | none => "-1"
   | some b => s!"0 {toHex b}"
 
-/-- crypto_kx: keys = BLAKE2b-512(q ‖ client_pk ‖ server_pk); client rx = first half -/
-def kxKeys (q cpk spk : Bytes) : Bytes := Blake2b.hash 64 [] [] [] (q ++ cpk ++ spk)
+/-! The C05 operations run the MODEL of the C code (`Model/Scalarmult.lean`), instantiated with the
+    specification primitives: the ladder is RFC 7748 `X25519.x25519`, reached through ref10's
+    `has_small_order` early reject and the wrapper's all-zero check. -/
+open Sodium.Model.Scalarmult in
+def mult : Bytes → Bytes → Option Bytes := mult_ref10 X25519.x25519
+
+/-- BLAKE2b-512 / BLAKE2b-256 without key (`crypto_generichash` as called by crypto_kx) -/
+def blake512 : Bytes → Bytes := Blake2b.hash 64 [] [] []
+def blake256 : Bytes → Bytes := Blake2b.hash 32 [] [] []
+
+/-- `rc` alone on failure, `0 <hex>` on success (harness `rc_hex`) -/
+def rcOut : Int32 × Option Bytes → String
+  | (rc, q) => if rc != 0 then i32s rc else s!"0 {toHex (q.getD [])}"
 
 def beforenm (xc : Bool) (pk sk : Bytes) : Option Bytes :=
-  (X25519.scalarmult sk pk).map fun q => if xc then Chacha.hchacha20 (zeros 16) q none else Salsa.hsalsa20 (zeros 16) q none
+  match Scalarmult.crypto_box_beforenm mult
+      (if xc then fun i k => Chacha.hchacha20 i k none else fun i k => Salsa.hsalsa20 i k none) pk sk with
+  | (rc, k) => if rc != 0 then none else k
+
+/-- harness line of kx.client / kx.server: the two-pointer call, then the (buf, NULL) and (NULL, buf) calls -/
+def kxLine (server : Bool) (a b c : Bytes) : String :=
+  let call := if server then Scalarmult.kxServer mult blake512 else Scalarmult.kxClient mult blake512
+  match call true true a b c, call true false a b c, call false true a b c with
+  | some full, some one, some two =>
+    if full.rc != 0 then
+      (if one.rc != full.rc then "NULL-RC-DIFFERS " else "") ++ i32s full.rc
+    else
+      (if one.rc != full.rc then "NULL-RC-DIFFERS " else "") ++ (if two.rc != 0 then "NULL-RC-DIFFERS " else "") ++
+      s!"0 {toHex (full.rx.getD [])} {toHex (full.tx.getD [])} {toHex (one.rx.getD [])} {toHex (two.tx.getD [])}"
+  | _, _, _ => "misuse"
 
 def decLine := Sodium.Driver.C01.decLine
 
@@ -53,26 +79,16 @@ def h2cAlg (alg : String) : Int32 :=
 
 def handle (op : String) (args : List String) : Option String :=
   match op, args with
-  | "x25519", [n, p] => do some (rcHex (X25519.scalarmult (← ofHex n) (← ofHex p)))
+  | "x25519", [n, p] => do some (rcOut (Scalarmult.crypto_scalarmult_curve25519 mult (← ofHex n) (← ofHex p)))
   | "x25519.base", [n] => do some (toHex (X25519.x25519Base (← ofHex n)))
   | "box.seed_keypair", [seed] => do
-    let sk := (sha512 (← ofHex seed)).take 32
-    some s!"{toHex (X25519.x25519Base sk)} {toHex sk}"
+    let (_, pk, sk) := Scalarmult.crypto_box_seed_keypair sha512 X25519.x25519Base (← ofHex seed)
+    some s!"{toHex pk} {toHex sk}"
   | "kx.seed_keypair", [seed] => do
-    let sk := Blake2b.hash 32 [] [] [] (← ofHex seed)
-    some s!"{toHex (X25519.x25519Base sk)} {toHex sk}"
-  | "kx.client", [cpk, csk, spk] => do
-    let cpk ← ofHex cpk; let csk ← ofHex csk; let spk ← ofHex spk
-    match X25519.scalarmult csk spk with
-    | none => some "-1"
-    | some q =>
-      -- with one output pointer NULL both pointers alias one buffer and the second store wins: the single key is keys[32..64]
-      let k := kxKeys q cpk spk; some s!"0 {toHex (k.take 32)} {toHex (k.drop 32)} {toHex (k.drop 32)} {toHex (k.drop 32)}"
-  | "kx.server", [spk, ssk, cpk] => do
-    let spk ← ofHex spk; let ssk ← ofHex ssk; let cpk ← ofHex cpk
-    match X25519.scalarmult ssk cpk with
-    | none => some "-1"
-    | some q => let k := kxKeys q cpk spk; some s!"0 {toHex (k.drop 32)} {toHex (k.take 32)} {toHex (k.drop 32)} {toHex (k.drop 32)}"
+    let (_, pk, sk) := Scalarmult.crypto_kx_seed_keypair blake256 X25519.x25519Base (← ofHex seed)
+    some s!"{toHex pk} {toHex sk}"
+  | "kx.client", [cpk, csk, spk] => do some (kxLine false (← ofHex cpk) (← ofHex csk) (← ofHex spk))
+  | "kx.server", [spk, ssk, cpk] => do some (kxLine true (← ofHex spk) (← ofHex ssk) (← ofHex cpk))
   | "box.easy", [v, m, n, pk, sk] => do
     let m ← ofHex m; let n ← ofHex n
     match beforenm (v == "xchacha") (← ofHex pk) (← ofHex sk) with
